@@ -284,6 +284,9 @@ def c01_units(tier, seed):
     # stepping is the expensive harness (30-60 s per unit): thorough takes the full quick year set with the larger step bound
     ys2 = year_set(tier, seed, budget_quick=8) if tier == "quick" else year_set("quick", seed)
     us += per_year("calendar.VH_C01_Step", "C01c", ys2, {"N": 35 if tier == "quick" else 400})
+    # the lemma C01b rests on: every lunar year's month table is contiguous and agrees with its neighbours' tables
+    # (same units as C06a, evaluated on the real table of EVERY lunar year; 0.06 s each)
+    us += [dict(id=f"C01d[Y={Y}]", harness="calendar.VH_C06_Structure", params={"Y": Y}) for Y in range(1, 9999)]
     return us
 
 
@@ -319,8 +322,8 @@ def c17_units(tier, seed):
     return per_year("calendar.VH_C17_TaoFoto", "C17a", year_set(tier, seed, thin=3))
 
 
-PROPS["C01"] = dict(units=c01_units, bounds_text="every second of each listed civil year; steps |n|<=45 (quick) / 400 (thorough)", outside="years not listed; larger steps")
-PROPS["C06"] = dict(units=c06_units, bounds_text="structure: the month table of EVERY lunar year 1..9998, evaluated on the real table; navigation |n|<=30 (quick) / 150 (thorough) from every month of each listed year", outside="years not listed")
+PROPS["C01"] = dict(units=c01_units, bounds_text="every second of each listed civil year; steps |n|<=35 (quick) / 400 (thorough); table lemma (contiguity, neighbouring tables agree): every lunar year 1..9998", outside="round trip and stepping for years not listed; larger steps")
+PROPS["C06"] = dict(units=c06_units, bounds_text="structure: the month table of EVERY lunar year 1..9998, evaluated on the real table; navigation |n|<=30 (quick) / 150 (thorough) from every month of each listed year", outside="navigation from years not listed")
 PROPS["C07"] = dict(units=c07_units, bounds_text="NewSolar: y in 1..9998, other args in [-2^31,2^31]; NewLunar/NewTao/NewFoto: month -14..14, day -2..33, time box, each listed year", outside="lunar years not listed")
 PROPS["C17"] = dict(units=c17_units, bounds_text="every second of each listed civil year", outside="years not listed")
 
